@@ -124,9 +124,10 @@ def encBlockDef (b : BlockDef) : Outcome Bytes :=
 def bboxOk (level xmin ymin xmax ymax : Nat) : Bool :=
   level ≤ 31 && xmax ≤ 2 ^ level - 1 && ymax ≤ 2 ^ level - 1 && xmin ≤ xmax && ymin ≤ ymax
 
-/-- `BlockDefinition::from_blob` (block_definition.rs:60-95).  Order of the failure sites as in the
-    code: short input → err; coverage box invalid → err; `offset + tiles_length` overflow → panic;
-    `x * 256`, `x_min + x * 256`, … (u32) overflow → panic; global box invalid (incl. z > 31) → err. -/
+/-- `BlockDefinition::from_blob` (block_definition.rs:60-105).  Failure sites: short input, invalid
+    coverage box, `offset + tiles_length` overflow, `x * 256 + x_min` … (u32) overflow, invalid global
+    box (incl. z > 31) — all `Err` (the arithmetic is checked since /repo aa1bc4ea; it used to panic in
+    the dev profile). -/
 def decBlockDef (bs : Bytes) : Outcome BlockDef := do
   let (z, r) ← readBE 1 bs
   let (x, r) ← readBE 4 r
@@ -139,11 +140,11 @@ def decBlockDef (bs : Bytes) : Outcome BlockDef := do
   let (off, r) ← readBE 8 r
   let (tl, r) ← readBE 8 r
   let (il, _) ← readBE 4 r
-  must (decide (off + tl < U64))
-  must (decide (cxmin + x * 256 < U32))      -- covers `x * 256` as well
-  must (decide (cymin + y * 256 < U32))
-  must (decide (cxmax + x * 256 < U32))
-  must (decide (cymax + y * 256 < U32))
+  ensure (decide (off + tl < U64))
+  ensure (decide (cxmin + x * 256 < U32))      -- covers `x * 256` as well
+  ensure (decide (cymin + y * 256 < U32))
+  ensure (decide (cxmax + x * 256 < U32))
+  ensure (decide (cymax + y * 256 < U32))
   ensure (bboxOk z (cxmin + x * 256) (cymin + y * 256) (cxmax + x * 256) (cymax + y * 256))
   pure ⟨z, x, y, cxmin, cymin, cxmax, cymax, ⟨off, tl⟩, ⟨off + tl, il⟩⟩
 
